@@ -214,12 +214,33 @@ func (s *Sim) Begin(id int, faults []Fault) {
 }
 
 // Restart models a process restart after a crash: the API is reachable again, no faults armed.
+// Time has passed: reservation pods that were created but not yet observed have started and report
+// their GPU index (they do so on their own, whether or not a binder is watching).
 func (s *Sim) Restart() {
 	s.mu.Lock()
-	defer s.mu.Unlock()
 	s.crashed = false
 	for _, a := range s.actors {
 		a.faults, a.crashed, a.phase, a.n = nil, false, "", 0
+	}
+	s.mu.Unlock()
+	s.SettleReservationPods()
+}
+
+// SettleReservationPods lets every reservation pod that has no GPU index yet report one.
+func (s *Sim) SettleReservationPods() {
+	pods := &v1.PodList{}
+	_ = s.Base.List(context.Background(), pods, client.InNamespace(ReservationNS))
+	for i := range pods.Items {
+		p := &pods.Items[i]
+		if p.Annotations[IndexAnnotation] != "" {
+			continue
+		}
+		orig := p.DeepCopy()
+		if p.Annotations == nil {
+			p.Annotations = map[string]string{}
+		}
+		p.Annotations[IndexAnnotation] = strconv.Itoa(s.assignIndex(p.Spec.NodeName))
+		_ = s.Base.Patch(context.Background(), p, client.MergeFrom(orig))
 	}
 }
 
